@@ -57,12 +57,15 @@ void harness(void) {
 #if T == 2	/* radius_pkt_attr_get_from_offset */
 	rad_pkt_attr_p attr = NULL;
 #ifdef KF_RADIUS_ATTR_OFF_END
+	/* blocked: offset in the last two bytes (attribute header not inside the packet), or a length byte < 2 there */
 	V_ASSUME(!(off + 2 > plen && off <= plen));
+	if (off >= 20 && off <= plen - 2) V_ASSUME(m[off + 1] >= 2);
 #endif
 	r = radius_pkt_attr_get_from_offset(pkt, off, &attr);
 	if (r == 0) {
 		V_ASSERT(V_IN_SPAN(attr, 2, m, plen), "attribute header inside the packet");
 		V_ASSERT(V_IN_SPAN(attr, attr->len, m, plen), "attribute inside the packet");
+		V_ASSERT(attr->len >= 2, "attribute length covers its own header");
 		V_WITNESS("attribute returned");
 	} else {
 		V_WITNESS("offset rejected");
@@ -88,6 +91,7 @@ void harness(void) {
 	size_t dl = 0;
 #ifdef KF_RADIUS_ATTR_OFF_END
 	V_ASSUME(!(off + 2 > plen && off <= plen));
+	if (off >= 20 && off <= plen - 2) V_ASSUME(m[off + 1] >= 2);
 #endif
 	r = radius_pkt_attr_get_data_ptr(pkt, off, &ty, &data, &dl);
 	if (r == 0) {
@@ -100,13 +104,20 @@ void harness(void) {
 	uint8_t *buf = (uint8_t *)v_alloc(NBUF);
 	size_t bs = 0;
 #ifdef KF_RADIUS_ATTR_OFF_END
-	/* blocked: start offsets at the end, and packets whose last attribute has the wanted type (the loop then calls
-	 * radius_pkt_attr_find() with offset == packet length) */
+	/* The copy loop advances `offset` behind each attribute it copied and calls radius_pkt_attr_find() again; when the
+	 * copied attribute ends the packet this is the known offset == packet length call.  Blocked: start offsets in
+	 * the last two bytes; an attribute of the wanted type (in the walk that starts at `off`) that ends exactly at the
+	 * packet end; and type User-Password (its data length is cut with strnlen, so the next offset can be anywhere). */
 	V_ASSUME(!(off + 2 > plen && off <= plen && off != 0));
-	{
-		size_t pos = 20, last = 0;
-		for (int i = 0; i < (LEN / 3) + 1 && pos < plen; i++) { last = pos; pos += m[pos + 1]; }
-		V_ASSUME(!(last != 0 && m[last] == IN.type));
+	V_ASSUME(IN.type != RADIUS_ATTR_TYPE_USER_PASSWORD);
+	if (off == 0 || (off >= 20 && off <= plen)) {
+		size_t pos = off ? off : 20;
+		for (int i = 0; i < (LEN / 2) + 1 && pos + 2 <= plen; i++) {
+			size_t al = m[pos + 1];
+			if (al < 2 || pos + al > plen) break;
+			V_ASSUME(!(m[pos] == IN.type && pos + al + 2 > plen));
+			pos += al;
+		}
 	}
 #endif
 	r = radius_pkt_attr_get_data_to_buf(pkt, off, IN.count, IN.type, buf, NBUF, &bs);
